@@ -19,13 +19,13 @@ package cbor
 
 // StreamDecoder: abstract position = consumed + the library decoder's read count.
 //@ func NewStreamDecoder(data) (r, err)
-//@   props C30
+//@   props C02 C30
 //@   assigns nothing
 //@   ensures succeeds: err == nil
-//@   ensures fresh: err == nil ==> r != nil && r.data == data && r.consumed == 0 && gf(r.dec, read) == 0 && r.dec != nil
+//@   ensures fresh: err == nil ==> r != nil && r.data == data && r.consumed == 0 && gf(r.dec, read) == 0 && r.dec != nil && gf(r.dec, limit) == len(data)
 
 //@ func (d *StreamDecoder) Advance(n) (err)
-//@   props C30
+//@   props C02 C30
 //@   let pos = d.consumed + gf(d.dec, read)
 //@   requires wf: d.consumed >= 0 && gf(d.dec, read) >= 0 && d.consumed <= len(d.data) && gf(d.dec, read) <= len(d.data) && pos <= len(d.data)
 //@   assigns d.consumed, d.dec
@@ -34,7 +34,7 @@ package cbor
 //@   ensures total: n >= 0 && n <= len(d.data) - pos ==> err == nil
 
 //@ func (d *StreamDecoder) DecodeArrayHeader() (length, start, hlen, err)
-//@   props C30
+//@   props C02 C30
 //@   let pos = d.consumed + gf(d.dec, read)
 //@   requires wf: d.consumed >= 0 && gf(d.dec, read) >= 0 && d.consumed <= len(d.data) && gf(d.dec, read) <= len(d.data) && pos <= len(d.data)
 //@   assigns d.consumed, d.dec
@@ -48,7 +48,7 @@ package cbor
 // with any other header form (non-minimal 0x98..0x9b, indefinite 0x9f) the id must come from a
 // real decode of the very same bytes, never from a fixed offset.
 //@ func DecodeIdFromList(cborData) (id, err)
-//@   props C03
+//@   props C02 C03
 //@   attr trackcalls on
 //@   ensures tooshort: len(cborData) < 2 ==> err != nil
 //@   ensures direct: err == nil && !called(Decode) ==> len(cborData) >= 2 && cborData[0] >= 128 && cborData[0] <= 151 && cborData[1] <= 23 && id == int(cborData[1])
@@ -66,7 +66,7 @@ package cbor
 //@   ensures minimal: length >= 0 && length < 4294967296 ==> r == minHdrLen(length)
 
 //@ func cborArrayHeaderSizeFromBytes(data, offset) (n, err)
-//@   props C07
+//@   props C02 C07
 //@   pure
 //@   requires nonneg: offset >= 0
 //@   ensures actual: err == nil ==> offset < len(data) && cborMajor(data[offset]) == 128 && cborAI(data[offset]) <= 27 && n == hdrLen(data[offset])
@@ -92,3 +92,28 @@ package cbor
 //@   props C01
 //@   pure
 //@   ensures stored: r == d.cborData
+
+// C02: the remaining hand-written byte-level readers of this package: no index or slice expression
+// can panic, for any input and any decoder position.
+//@ func ListLength(cborData) (n, err)
+//@   props C02
+//@ func (d *StreamDecoder) RawBytes(offset, length) (r)
+//@   props C02
+//@   pure
+//@ func (d *StreamDecoder) DecodeMapHeader() (length, start, hlen, err)
+//@   props C02
+//@   let pos = d.consumed + gf(d.dec, read)
+//@   requires wf: d.consumed >= 0 && gf(d.dec, read) >= 0 && d.consumed <= len(d.data) && gf(d.dec, read) <= len(d.data) && pos <= len(d.data)
+//@ func (d *StreamDecoder) SkipN(n) (start, length, err)
+//@   props C02
+//@ func (d *StreamDecoder) DecodeArrayItems(callback) (start, length, err)
+//@   props C02
+//@   requires wf: d.consumed >= 0 && d.consumed <= len(d.data) && gf(d.dec, limit) <= len(d.data)
+//@ func ArrayInfo(data) (count, hdr, indef)
+//@   props C02
+//@   pure
+//@   ensures header: (count >= 0 || indef) ==> hdr >= 1 && hdr <= 9 && int(hdr) <= len(data)
+//@ func MapInfo(data) (count, hdr, indef)
+//@   props C02
+//@   pure
+//@   ensures header: (count >= 0 || indef) ==> hdr >= 1 && hdr <= 9 && int(hdr) <= len(data)
